@@ -74,7 +74,8 @@ def gen_case(rng: random.Random, tier: str):
         if r < 0.3:
             ops.append({"op": "deref", "s": s})
         elif r < 0.4:
-            ops.append({"op": "arith", "s": s, "d": rng.choice([1, 2, -1, 4, -3, 8])})
+            ops.append({"op": "arith", "s": s, "d": rng.choice([1, 2, -1, 4, -3, 8]), "o": rng.choice(["+", "+", "-", "&", "|", "^", "*", "//", "%", "<<", ">>"]),
+                        "deref_first": rng.random() < 0.5})
         elif r < 0.5:
             ops.append({"op": "attr", "s": s})
         elif r < 0.58:
@@ -339,16 +340,30 @@ def run_case(case, stats):
                         raise Violation("dereference", "pp_not_pointer", f"**: first dereference is {type(v).__name__}")
                     check_deref(v, f, 1, got[1], f"*{sl['f']}[{sl['j']}]")
             elif k == "arith":
-                d = op["d"]
+                import operator
+
+                o = op.get("o", "+")
+                d = abs(op["d"]) if o not in ("+", "-") else op["d"]
+                if o == "+" and d < 0:
+                    o, d = "-", -d
+                fn = {"+": operator.add, "-": operator.sub, "&": operator.and_, "|": operator.or_, "^": operator.xor, "*": operator.mul,
+                      "//": operator.floordiv, "%": operator.mod, "<<": operator.lshift, ">>": operator.rshift}[o]
+                if op.get("deref_first") and a:
+                    try:
+                        p.dereference()  # the source now holds a cached target; the derived pointer must not inherit it
+                    except Exception:  # noqa: BLE001
+                        pass
                 try:
-                    q = p + d if d >= 0 else p - (-d)
+                    q = fn(p, d)
                 except Exception as e:  # noqa: BLE001
-                    raise Violation("arithmetic", "raised", f"{p!r} + {d}: {type(e).__name__}")
+                    raise Violation("arithmetic", "raised", f"{p!r} {o} {d}: {type(e).__name__}")
+                na = fn(a, d)
                 stats.count("evaluations")
-                if type(q) is not type(p) or int.__index__(q) != a + d:
-                    raise Violation("arithmetic", "type_or_value", f"{p!r} {d:+d} -> {q!r} of type {type(q).__name__}, expected {type(p).__name__} {a + d}")
-                if a + d > 0 and a != 0:
-                    check_deref(q, f, f["depth"], a + d, f"({sl['f']}[{sl['j']}]{d:+d})")
+                stats.count("probe.arith_" + o)
+                if type(q) is not type(p) or int.__index__(q) != na:
+                    raise Violation("arithmetic", "type_or_value", f"{p!r} {o} {d} -> {q!r} of type {type(q).__name__}, expected {type(p).__name__} {na}")
+                if 0 < na <= maxaddr and a != 0:
+                    check_deref(q, f, f["depth"], na, f"({sl['f']}[{sl['j']}] {o} {d})")
             elif k == "attr":
                 if f["t"] == "T" and f["depth"] == 1 and a != 0:
                     exp = _target_ref(cs_ref, "T", 1, image, a)
